@@ -257,6 +257,9 @@ func (r *Report) writeEvidence(ps *propSummary, viol int) {
 	abstracted := map[string]int{}
 	var notes []string
 	var preconds []string
+	crossTotal := map[string]int{}
+	crossOK := map[string]bool{}
+	var crossDisagree []string
 	seenFn := map[string]bool{}
 	for _, ob := range ps.obls {
 		if ob.Res.status == "not-attempted" {
@@ -268,6 +271,15 @@ func (r *Report) writeEvidence(ps *propSummary, viol int) {
 		}
 		for _, a := range ob.All {
 			solverTime += a.timeS
+		}
+		for _, x := range ob.Cross {
+			crossTotal[x[strings.Index(x, ":")+1:]]++
+			if strings.HasSuffix(x, ":unsat") {
+				crossOK[ob.ID] = true
+			}
+			if strings.HasSuffix(x, ":sat") {
+				crossDisagree = append(crossDisagree, ob.ID+" "+x)
+			}
 		}
 		if ob.fn.fc.IsPart {
 			funcsPartial[ob.Func] = true
@@ -328,6 +340,7 @@ func (r *Report) writeEvidence(ps *propSummary, viol int) {
 		"known_findings_hit":       knownHit,
 		"notes":                    notes,
 		"generator_errors":         ps.genErrs,
+		"cross_check":              map[string]any{"note": "thorough tier only: every discharged obligation is put, as one goal, to the solvers that did not give the accepted answer (20 s)", "answers": crossTotal, "obligations_confirmed_by_a_second_solver": len(crossOK), "disagreements": crossDisagree},
 		"preconditions":            preconds,
 		"preconditions_note":       "each precondition is an obligation at every call site inside a function under a full contract (kind pre); at entry points, and at call sites in functions that are not under contract or whose partial contract does not claim kind pre, it is assumed",
 		"vacuity":                  r.vacuity,
